@@ -72,6 +72,28 @@ NEGATE = re.compile(r"^(\s*)(\}?\s*(?:else\s+)?if )((?!let ).+) \{\s*$")
 GUARD = re.compile(r"^(\s*)(\}?\s*(?:else\s+)?if )(.+) \{\s*$")
 
 
+STMT = re.compile(r"^\s+(?!let |return|use |const |pub |fn |if |else|match |for |while |\}|\)|\]|//|#)[A-Za-z_][\w\.:]*(\(|\.|::| [+\-*/]?= ).*;\s*$")
+ARG_SWAP = re.compile(r"\(([a-z_][\w\.]*(?:\[\d\])?(?:\.clone\(\))?), ([a-z_][\w\.]*(?:\[\d\])?(?:\.clone\(\))?)\)")
+
+
+def mutants3():
+    """round 3: whole single-line statements deleted; the two arguments of a two-argument call swapped"""
+    out = []
+    for rel, maxline in FILES:
+        src = open(os.path.join("/repo", rel)).read().split("\n")
+        for i, line in enumerate(src):
+            if maxline and i + 1 > maxline:
+                break
+            code = line.split("//")[0]
+            if STMT.match(code):
+                out.append({"file": rel, "line": i + 1, "orig": line, "new": "", "op": "statement deleted", "col": 0})
+            for m in ARG_SWAP.finditer(code):
+                if m.group(1) != m.group(2):
+                    new = code[:m.start()] + "(" + m.group(2) + ", " + m.group(1) + ")" + code[m.end():]
+                    out.append({"file": rel, "line": i + 1, "orig": line, "new": new, "op": "arguments swapped", "col": m.start()})
+    return out
+
+
 def mutants(ops=None, negate=False):
     ops = ops or OPS
     out = []
@@ -211,9 +233,10 @@ def main():
     ap.add_argument("--offset", type=int, default=0)
     ap.add_argument("--recheck", default="", help="re-evaluate the mutants that an earlier results file gave one of these statuses (comma separated)")
     ap.add_argument("--results", default="results.jsonl")
+    ap.add_argument("--round3", action="store_true", help="third operator set (statement deletion, argument swaps)")
     ap.add_argument("--round2", action="store_true", help="second operator set (identifier swaps, constants, negated conditions)")
     a = ap.parse_args()
-    ms = mutants(OPS2, True) if a.round2 else mutants()
+    ms = mutants3() if a.round3 else (mutants(OPS2, True) if a.round2 else mutants())
     if a.recheck:
         want = set(a.recheck.split(","))
         old = [json.loads(l) for l in open(os.path.join(a.out, "results.jsonl"))]
